@@ -384,6 +384,11 @@ func (eng *Engine) checkProperty(prop string, timeoutMs int, all bool, verbose b
 			}
 			continue
 		}
+		if c != nil && c.Attrs["trusted_summary"] == "true" {
+			// a summary that is assumed, not verified (listed in evidence)
+			rep.Funcs = append(rep.Funcs, &FuncResult{Key: k, Assumed: []string{"trusted summary (not verified): " + k}})
+			continue
+		}
 		res := eng.verifyFunction(fn, c, checkLocks)
 		rep.Funcs = append(rep.Funcs, res)
 		if res.Panic != "" {
